@@ -29,7 +29,7 @@ def generate(ctx):
     for i in range(ctx.budget(140, 1300)):
         schema = gen.spice_names(rng, gen.gen_schema(rng, 4))
         n = rng.randint(0, 7 if ctx.tier == "quick" else 12)
-        rows_g = gen.gen_rows(rng, schema, n, max_len=5, null_p=0.3)
+        rows_g = gen.gen_rows(rng, schema, n, max_len=5, null_p=0.0 if i % 6 == 5 else 0.3)     # now and then: nothing to drop
         if i % 40 == 0:
             rows_g = []
         recipe = fo.LAYOUTS[i % len(fo.LAYOUTS)] if i < len(fo.LAYOUTS) else rng.choice(fo.LAYOUTS)
@@ -45,8 +45,11 @@ def generate(ctx):
         rows = fo.rows_rm(inp["ca"])
         kind = ["on_nested", "subset", "both", "subset", "on_nested", "base", "base_subset", "conflict", "two_layers", "unknown_layer"][i % 10]
         how = rng.choice(["any", "all", None, None])
-        thresh = rng.choice([0, 1, 2, len(names)]) if (how is None and rng.random() < 0.5) else None
+        thresh = rng.choice([0, 1, 2, len(names), len(names) + 1]) if (how is None and rng.random() < 0.5) else None
         sub = rng.sample(names, rng.randint(1, min(3, len(names)))) if kind in ("subset", "both") or (kind == "on_nested" and rng.random() < 0.0) else None
+        if i % 6 == 5 and rng.random() < 0.7:
+            # nothing is null: 'any' / 'all' have nothing to drop, but a threshold above the number of considered fields drops everything
+            how, thresh = None, rng.choice([(len(sub) if sub else len(names)) + 1, len(names), 1])
         inplace = rng.random() < 0.3
         kw = {}
         if how is not None:
